@@ -51,6 +51,16 @@ class Check:
         self.extra = {}
         self.known = [k for k in load_known() if k["property"] == pid]
         self._nrep = 0
+        self._stages = []
+        self._tmark = self.t0
+
+    def mark(self, stage):
+        """Record the wall time spent since the previous mark under `stage` (evidence: coverage.stage_wall_s)."""
+        now = time.time()
+        self._stages.append([stage, round(now - self._tmark, 1)])
+        self._tmark = now
+        if os.environ.get("VERIF_VERBOSE"):
+            print("[%s] stage %s: %.1fs" % (self.pid, stage, self._stages[-1][1]), file=sys.stderr, flush=True)
 
     # ---- TLC model runs
     def add_tlc(self, name, r, constants="", exhaustive=True, expect_violation=None):
@@ -125,6 +135,8 @@ class Check:
             "notes": self.notes,
         }
         cov.update(self.extra)
+        if self._stages:
+            cov["stage_wall_s"] = self._stages
         if "rule" not in cov:
             cov["rule"] = "see notes"
         ev = {"property_id": self.pid, "tier": self.tier, "seed": seed(), "level": self.level,
